@@ -112,97 +112,94 @@ func runReuseCase(w *out.W, c reuseCase) {
 			}
 			return l
 		}
-		diff := func(opts []schema.DiffOption) (string, []cch) {
-			cs, err := d.SchemaDiff(buildD(c.from, dialect), buildD(c.to, dialect), opts...)
+		// the three entry points of sqlx.Diff that build their own DiffOptions
+		type entryT struct {
+			name string
+			run  func(opts []schema.DiffOption) (string, []cch)
+		}
+		show := func(cs []schema.Change, err error) (string, []cch) {
 			if err != nil {
 				return "err", nil
 			}
 			cc := canon(cs)
 			return showC(cc), cc
 		}
-		// the unfiltered change set (options: normalized only when the call says so; the generated calls all do)
-		allShow, all := diff([]schema.DiffOption{schema.DiffNormalized()})
+		entries := []entryT{
+			{"SchemaDiff", func(opts []schema.DiffOption) (string, []cch) {
+				return show(d.SchemaDiff(buildD(c.from, dialect), buildD(c.to, dialect), opts...))
+			}},
+			{"RealmDiff", func(opts []schema.DiffOption) (string, []cch) {
+				return show(d.RealmDiff(schema.NewRealm(buildD(c.from, dialect)), schema.NewRealm(buildD(c.to, dialect)), opts...))
+			}},
+			{"TableDiff", func(opts []schema.DiffOption) (string, []cch) {
+				f, t := buildD(c.from, dialect), buildD(c.to, dialect)
+				if len(f.Tables) == 0 {
+					return "none", nil
+				}
+				t2, ok := t.Table(f.Tables[0].Name)
+				if !ok {
+					return "none", nil
+				}
+				return show(d.TableDiff(f.Tables[0], t2, opts...))
+			}},
+		}
 		var obs []string
-		for n, call := range c.calls {
-			callOpts := make([]schema.DiffOption, 0, len(call)+1) // the variadic slice of this call; spare capacity on purpose
-			K := map[string]bool{}
-			var names []string
-			for _, i := range call {
-				callOpts = append(callOpts, vals[i])
-				for _, k := range c.pool[i].kinds {
-					if !K[k] {
-						names = append(names, k)
-					}
-					K[k] = true
-				}
-			}
-			sort.Strings(names)
-			got, gotC := diff(callOpts)
-			obs = append(obs, got)
-			w.Count(dialect + ":calls")
-			where := fmt.Sprintf("%s: call %d of %d (options %s; all calls %v)", dialect, n+1, len(c.calls), showCall(c, call), c.calls)
-			want, _ := diff(fresh(call))
-			if got != want {
-				w.Violation(id, "reuse-differs-from-fresh", fmt.Sprintf("%s: reused option values give %s, freshly made options with the same kinds %v give %s", where, got, names, want))
-			}
-			if got == "err" || allShow == "err" {
-				if (got == "err") != (allShow == "err") {
-					w.Violation(id, "skip-error-differs", where+": error with skip options only or without only")
-				}
+		for _, e := range entries {
+			// (a) the unfiltered change set BEFORE the sequence (options: normalized only)
+			pre, preC := e.run([]schema.DiffOption{schema.DiffNormalized()})
+			if pre == "none" {
 				continue
 			}
-			if t, ok := occursKind(gotC, K); ok {
-				w.Violation(id, "skip-kind-present", fmt.Sprintf("%s: skipped kinds %v but the change set holds %s: %s", where, names, t, got))
-			}
-			if ref := showC(refRemove(all, K)); ref != got {
-				w.Violation(id, "skip-not-exact", fmt.Sprintf("%s: skip %v: got %s, unfiltered minus skipped kinds is %s", where, names, got, ref))
-			}
-			if got != allShow {
-				w.Count(dialect + ":filtered")
-				w.NonTrivial(dialect + allShow + strings.Join(names, ","))
-			}
-			// the other two entry points that build their own DiffOptions (sqlx.Diff.RealmDiff, TableDiff),
-			// with the same kept values (oracle only)
-			for _, entry := range []string{"RealmDiff", "TableDiff"} {
-				run := func(opts []schema.DiffOption) (string, []cch) {
-					f, t := buildD(c.from, dialect), buildD(c.to, dialect)
-					var (
-						cs  []schema.Change
-						err error
-					)
-					if entry == "RealmDiff" {
-						cs, err = d.RealmDiff(schema.NewRealm(f), schema.NewRealm(t), opts...)
-					} else {
-						if len(f.Tables) == 0 {
-							return "none", nil
-						}
-						t2, ok := t.Table(f.Tables[0].Name)
-						if !ok {
-							return "none", nil
-						}
-						cs, err = d.TableDiff(f.Tables[0], t2, opts...)
-					}
-					if err != nil {
-						return "err", nil
-					}
-					cc := canon(cs)
-					return showC(cc), cc
+			// (b) the sequence with the kept values: consecutive calls, nothing of the oracle in between
+			got := make([]string, len(c.calls))
+			gotC := make([][]cch, len(c.calls))
+			for n, call := range c.calls {
+				callOpts := make([]schema.DiffOption, 0, len(call)+1) // the variadic slice of this call; spare capacity on purpose
+				for _, i := range call {
+					callOpts = append(callOpts, vals[i])
 				}
-				g2, g2c := run(callOpts)
-				if g2 == "none" {
+				got[n], gotC[n] = e.run(callOpts)
+				w.Count(dialect + ":" + e.name)
+			}
+			// (c) the unfiltered change set AFTER the sequence: nothing of the options may have stayed behind in the differ
+			if post, _ := e.run([]schema.DiffOption{schema.DiffNormalized()}); post != pre {
+				w.Violation(id, "reuse-state-leaks", fmt.Sprintf("%s [%s]: a diff without skip options gives %s after the sequence %v of diffs with options %v; before the sequence it gave %s",
+					dialect, e.name, post, c.calls, c.pool, pre))
+			}
+			if e.name == "SchemaDiff" {
+				obs = got
+			}
+			for n, call := range c.calls {
+				K := map[string]bool{}
+				var names []string
+				for _, i := range call {
+					for _, k := range c.pool[i].kinds {
+						if !K[k] {
+							names = append(names, k)
+						}
+						K[k] = true
+					}
+				}
+				sort.Strings(names)
+				where := fmt.Sprintf("%s [%s]: call %d of %d (options %s; all calls %v)", dialect, e.name, n+1, len(c.calls), showCall(c, call), c.calls)
+				if want, _ := e.run(fresh(call)); got[n] != want {
+					w.Violation(id, "reuse-differs-from-fresh", fmt.Sprintf("%s: reused option values give %s, freshly made options with the same kinds %v give %s", where, got[n], names, want))
+				}
+				if got[n] == "err" || pre == "err" {
+					if (got[n] == "err") != (pre == "err") {
+						w.Violation(id, "skip-error-differs", where+": error with skip options only or without only")
+					}
 					continue
 				}
-				w.Count(dialect + ":" + entry)
-				if w2, _ := run(fresh(call)); w2 != g2 {
-					w.Violation(id, "reuse-differs-from-fresh", fmt.Sprintf("%s [%s]: reused option values give %s, freshly made options with the same kinds %v give %s", where, entry, g2, names, w2))
+				if t, ok := occursKind(gotC[n], K); ok {
+					w.Violation(id, "skip-kind-present", fmt.Sprintf("%s: skipped kinds %v but the change set holds %s: %s", where, names, t, got[n]))
 				}
-				if t, ok := occursKind(g2c, K); ok {
-					w.Violation(id, "skip-kind-present", fmt.Sprintf("%s [%s]: skipped kinds %v but the change set holds %s: %s", where, entry, names, t, g2))
+				if ref := showC(refRemove(preC, K)); ref != got[n] {
+					w.Violation(id, "skip-not-exact", fmt.Sprintf("%s: skip %v: got %s, unfiltered minus skipped kinds is %s", where, names, got[n], ref))
 				}
-				if a2, a2c := run([]schema.DiffOption{schema.DiffNormalized()}); a2 != "err" && g2 != "err" {
-					if ref := showC(refRemove(a2c, K)); ref != g2 {
-						w.Violation(id, "skip-not-exact", fmt.Sprintf("%s [%s]: skip %v: got %s, unfiltered minus skipped kinds is %s", where, entry, names, g2, ref))
-					}
+				if e.name == "SchemaDiff" && got[n] != pre {
+					w.Count(dialect + ":filtered")
+					w.NonTrivial(dialect + pre + strings.Join(names, ","))
 				}
 			}
 		}
